@@ -22,6 +22,8 @@ KNOWN = os.path.join(VERIF, "known_findings.json")
 TARGETS = {"x86_64": "x86_64-unknown-linux-gnu", "i686": "i686-unknown-linux-gnu", "aarch64": "aarch64-unknown-linux-gnu",
            # x86_64 with the AES-NI arm live under the interpreter: detection granted, _mm_aeskeygenassist_si128 modelled
            "x86_64-ni": "x86_64-unknown-linux-gnu",
+           # the same on 32-bit x86 (code under cfg(target_arch = "x86") with the AES-NI arm live)
+           "i686-ni": "i686-unknown-linux-gnu",
            # big-endian 64-bit target: byte-order assumptions in the portable backends (family sweep only)
            "s390x": "s390x-unknown-linux-gnu",
            # big-endian 32-bit: fixslice32 and Kuznyechik's table backend as a 32-bit big-endian machine sees them
@@ -57,7 +59,7 @@ def miri_cmd(target, miriflags, args):
         # reference to ONE byte): Stacked Borrows rejects that, Tree Borrows accepts it. Model choice, not a finding
         # of a claimed property (DESIGN.md 3.4 / 10): aarch64 runs use Tree Borrows; x86_64 and i686 keep Stacked Borrows.
         e["MIRIFLAGS"] = (miriflags + " -Zmiri-tree-borrows").strip()
-    if target == "x86_64-ni":
+    if target in ("x86_64-ni", "i686-ni"):
         e["RUSTFLAGS"] = "-C target-feature=+aes"
         tdir = os.path.join(BUILD, "target-miri-ni")
     cmd = ["cargo", "+nightly", "miri", "run", "--offline", "--quiet", "--bin", "sim-miri", "--target", TARGETS[target],
@@ -69,7 +71,7 @@ def run_miri(target, miriflags, args, timeout):
     cmd, e = miri_cmd(target, miriflags, args)
     t0 = time.time()
     try:
-        p = subprocess.run(cmd, cwd={"aarch64": WS_A64, "x86_64-ni": os.path.join(BUILD, "ws-ni")}.get(target, WS), env=e, capture_output=True, text=True, timeout=timeout)
+        p = subprocess.run(cmd, cwd={"aarch64": WS_A64, "x86_64-ni": os.path.join(BUILD, "ws-ni"), "i686-ni": os.path.join(BUILD, "ws-ni")}.get(target, WS), env=e, capture_output=True, text=True, timeout=timeout)
         return p.returncode, p.stdout, p.stderr, time.time() - t0
     except subprocess.TimeoutExpired as ex:
         return -9, (ex.stdout or b"").decode() if isinstance(ex.stdout, bytes) else (ex.stdout or ""), "TIMEOUT", time.time() - t0
@@ -249,7 +251,7 @@ def minimise_exec(r, want_status, want_prop=None, max_rounds=6):
 def miri_exec_engine(prop, tier, seed):
     quick = tier == "quick"
     nlists = 8 if quick else 64
-    targets = ["x86_64", "i686", "aarch64", "x86_64-ni", "s390x", "powerpc"]
+    targets = ["x86_64", "i686", "aarch64", "x86_64-ni", "i686-ni", "s390x", "powerpc"]
     # quick tier: random lists stay below 26 blocks per call (the deterministic grids carry the long batches)
     mb = 26 if quick else None
     files = export_lists(prop, seed, nlists, 10 if quick else 16, 3, "exec", max_blocks=mb)
@@ -338,8 +340,9 @@ def miri_exec_engine(prop, tier, seed):
     jobs += [("aarch64", f, True) for f in a64_grid]
     jobs += [("aarch64", f, True) for f in a64_aes] + [("aarch64", f, False) for f in a64_aes[: (1 if quick else 8)]]
     jobs += [("aarch64", f, True) for f in a64_kuz]
-    # the AES-NI arm itself under the interpreter (x86_64, detection granted): same AES lists
+    # the AES-NI arm itself under the interpreter (x86_64 and 32-bit x86, detection granted): same AES lists
     jobs += [("x86_64-ni", f, True) for f in a64_aes]
+    jobs += [("i686-ni", f, True) for f in a64_aes[: (2 if quick else 12)]]
     t0 = time.time()
     with ThreadPoolExecutor(max_workers=16) as ex:
         results = list(ex.map(lambda tf: exec_one(tf[0], tf[1], grant=tf[2]), jobs))
@@ -983,11 +986,11 @@ def replay(path):
 
 def warm():
     rc = 0
-    for t in ("x86_64", "i686", "aarch64", "x86_64-ni", "s390x", "powerpc"):
+    for t in ("x86_64", "i686", "aarch64", "x86_64-ni", "i686-ni", "s390x", "powerpc"):
         e = env_offline()
-        if t in ("aarch64", "x86_64-ni"):
+        if t in ("aarch64", "x86_64-ni", "i686-ni"):
             e["RUSTFLAGS"] = "-C target-feature=+aes"
-        p = subprocess.run(["cargo", "+nightly", "miri", "setup", "--offline", "--target", TARGETS[t]], cwd={"aarch64": WS_A64, "x86_64-ni": os.path.join(BUILD, "ws-ni")}.get(t, WS), env=e, capture_output=True, text=True)
+        p = subprocess.run(["cargo", "+nightly", "miri", "setup", "--offline", "--target", TARGETS[t]], cwd={"aarch64": WS_A64, "x86_64-ni": os.path.join(BUILD, "ws-ni"), "i686-ni": os.path.join(BUILD, "ws-ni")}.get(t, WS), env=e, capture_output=True, text=True)
         if p.returncode != 0:
             print("HARNESS-ERROR: miri setup " + t + ": " + p.stderr[-500:], file=sys.stderr)
             rc = 2
